@@ -447,6 +447,10 @@ class FrameP:
     """polars DataFrame / LazyFrame view"""
 
     __pyvc_symbolic__ = True
+    import ast as _ast
+
+    # polars.LazyFrame / DataFrame define neither & nor | (frames are combined through expressions): python raises TypeError
+    __pyvc_undefined_binops__ = (_ast.BitAnd, _ast.BitOr)
 
     def __init__(self, space, cols, sel=None, kind="LazyFrame", name="lf", agg=False):
         self.space = space
@@ -541,6 +545,7 @@ class FrameP:
                 flat.extend(e)
             else:
                 flat.append(e)
+        flat = [col(e) if isinstance(e, str) else e for e in flat]
         for e in flat:
             if isinstance(e, Expr) and e.multi is not None and getattr(e, "fold", None) is not None:
                 out[e.name] = e.fold(self)
@@ -585,6 +590,33 @@ class FrameP:
         for k, e in named.items():
             out[k] = e.ev(self) if isinstance(e, Expr) else e
         return self._mark_cast(self.derive(cols=out))
+
+    def drop(self, *names, strict=True, **kw):
+        flat = []
+        for n in names:
+            flat.extend(n) if isinstance(n, (list, tuple)) else flat.append(n)
+        if strict and any(n not in self.cols for n in flat):
+            raise PyExc(cur().ghost["interp"].make_exc(OtherException, "ColumnNotFoundError"))
+        return self.derive(cols={k: v for k, v in self.cols.items() if k not in flat})
+
+    def cast(self, dtypes, strict=True, **kw):
+        """LazyFrame.cast(dtype | {column: dtype}, strict=False): as Expr.cast on every (named) column - a value that cannot be cast
+        becomes null, nulls stay null (the same uninterpreted `castable` predicate of the path)"""
+        if strict:
+            raise Unsupported("strict LazyFrame.cast")
+        castable = cur().ghost.get("castable")
+        if castable is None:
+            castable = cur().ghost["castable"] = z3.Function(cur().fresh_name("castable"), z3.RealSort(), z3.BoolSort())
+        keys = list(dtypes) if isinstance(dtypes, dict) else list(self.cols)
+        cols = dict(self.cols)
+        for k in keys:
+            if k not in self.cols:
+                raise PyExc(cur().ghost["interp"].make_exc(OtherException, f"ColumnNotFoundError: {k}"))
+            c = self.cols[k]
+            cols[k] = Col(c.at, (lambda c: lambda i: z3.Or(c.null(i), z3.Not(castable(_term(c.at(i))))))(c), c.kind)
+        r = self.derive(cols=cols)
+        r.may_fail_when_collected = True  # (a cast polars has no kernel for fails the query when it is collected)
+        return r
 
     def filter(self, mask):
         if isinstance(mask, Expr):
@@ -802,6 +834,8 @@ def _multi(e):
     def per_column(n, m=m):
         x = Expr(lambda fr, n=n: fr.cols[n], n)
         for name, a, k in m.ops:
+            # an operand that is itself a selector stands for ITS expression on the same column (pl.col("*").f() | pl.col("*").g())
+            a = tuple(y.per_column(n) if isinstance(y, Expr) and y.multi is not None and hasattr(y, "per_column") else y for y in a)
             x = getattr(x, name)(*a, **k)
         return x
 
@@ -815,8 +849,13 @@ def _multi(e):
 
         return f
 
-    for nm in ("map_elements", "is_null", "not_", "eq", "ne", "gt", "ge", "lt", "le", "is_in", "all", "any", "is_duplicated", "is_not_null", "fill_null", "fill_nan", "cast", "is_nan", "is_not_nan"):
+    for nm in ("map_elements", "is_null", "not_", "eq", "ne", "gt", "ge", "lt", "le", "is_in", "all", "any", "is_duplicated", "is_not_null", "fill_null", "fill_nan", "cast",
+               "is_nan", "is_not_nan", "and_", "or_"):
         setattr(m, nm, wrap(nm))
+    # operators are looked up on the type
+    M.__or__ = lambda self, o: wrap("or_")(o)
+    M.__and__ = lambda self, o: wrap("and_")(o)
+    M.__invert__ = lambda self: wrap("not_")()
     return m
 
 
@@ -893,13 +932,26 @@ def install(I):
     M = I.models
     M[id(pl.col)] = lambda I, *a: col(*a)
     M[id(pl.lit)] = lambda I, v, dtype=None, **kw: lit(v)
+    M[id(pl.all)] = lambda I, *a: col(*a) if a else col("*")
     M[id(pl.fold)] = lambda I, acc=None, function=None, exprs=None: fold(acc, function, exprs)
     M[id(pl.concat)] = lambda I, items, how="vertical", **kw: concat(items, how=how)
 
     def all_horizontal(I, *names):
         es = [col(n) if isinstance(n, str) else n for n in names]
         if any(e.multi is not None for e in es):
-            raise Unsupported("pl.all_horizontal over a selector")
+            # over a selector ("*", pl.all(), a regex): the conjunction (Kleene) of the selected columns of the frame it is evaluated on
+            def ev(fr):
+                flat = []
+                for e in es:
+                    flat.extend([e.per_column(n) for n in e.multi(fr)] if e.multi is not None else [e])
+                if not flat:
+                    return _lit_col(True)
+                r = flat[0]
+                for e in flat[1:]:
+                    r = r.and_(e)
+                return r.ev(fr)
+
+            return Expr(ev, "all_horizontal")
         r = es[0]
         for e in es[1:]:
             r = r.and_(e)
